@@ -9,53 +9,74 @@
   fold is C14's `Rev.assemble` order; by `Props/C01/ProjectEquations.lean` it is the `rows` field of the
   `NetProblem` that `PE.projectEquations` hands to the solvers.
 
-  `_partial`: the stopping test still takes `hpols` (the misclosures `TestLinearizationVisitor` recomputes
-  from the corrected coordinates are all 0).  The full statement derives it from `ExactObs` and `x = 0`:
-      pols = obs.map (pol of the class at the coordinates corrected by x = 0, v = 0)  ⇒  ∀ p ∈ pols, p = 0.
-  Missing: a model of `TestLinearizationVisitor` that reads the SAME record `Lin.Obs` as the linearisation
-  (`GN.polDistance/Direction/Angle/SDistance/ZAngle` take bare coordinates and Cogo's `bearingDistance`;
-  `polDirection_fixed`, `polAngle_fixed` (C06GN) cover the principal range `{0, 2π}` only, `ExactObs` allows
-  every `k : ℤ`).  Per class the zero is proved: `C06_fixed_point_pol_*` in `Props/C06.lean`.
+  The stopping test is `TL.testLinearization` (Gama/Model/TestLinearization.lean): the loop of `TestLinearization()`
+  over the observations of the pass, every `TestLinearizationVisitor::visit` REGENERATED from the source
+  (Gama/Gen/TestLinVisitor.lean) on the same record `Lin.Obs` as the linearisation, reading the corrections through
+  the index state the pass left (`res.idx`) and the solver's `x`, `v`.  Nothing about the misclosures is assumed:
+  `Lemmas/C06PolLin.lean` derives `pol = 0` for all 13 classes from `ExactObs` (any number k : ℤ of full circles)
+  and `x = 0`, `v = 0`.  `fuel'` bounds the visitor's two `while` loops: the test never answers "iterate", and from
+  some fuel on it answers "stop" (over ℝ the loops always end).
 -/
 import Gama.Lemmas.C06FixedPoint
 import Gama.Lemmas.AssemblyAgree
 import Gama.Lemmas.C06AssembledExample
+import Gama.Lemmas.C06PolLin
 namespace Gama.Props.C06Assembled
-open Gama Gama.Lin Gama.LS Gama.GN Gama.C06L Gama.C06R Gama.C06FP Matrix
+open Gama Gama.Lin Gama.LS Gama.GN Gama.C06L Gama.C06R Gama.C06FP Gama.C06PL Gama.TL Matrix
 
-/-- **the true coordinates are a fixed point, with the matrix and the right-hand side of ONE pass**:
-    all observations exact, the pass of `project_equations` returns `res`; `A` = the design matrix the pass
+/-- **the true coordinates are a fixed point, with the matrix, the right-hand side and the stopping test of ONE
+    pass**: all observations exact, the pass of `project_equations` returns `res`; `A` = the design matrix the pass
     assembled, `b` = its right-hand side, `P` positive definite, `(x, v, rtr)` a least-squares solution in the
-    sense of C01 for a regularisation subset that resolves the defect of `A`.  Then `x = 0`, `v = 0`,
-    `[pvv] = 0`, the stopping test (on all-zero misclosures) ends the iteration and
-    `refine_approx_coordinates` changes nothing -/
-theorem C06_true_coordinates_fixed_point_assembled_partial
+    sense of C01 for a regularisation subset that resolves the defect of `A`.  Then `x = 0`, `v = 0`, `[pvv] = 0`,
+    `TestLinearization` — run on the same network, the same observations, the index fields the pass left and
+    this `x`, `v` — does not ask for another iteration, and `refine_approx_coordinates` changes nothing -/
+theorem C06_true_coordinates_fixed_point_assembled
     (σ : Net ℝ) (fuel : Nat) (obs : List (NObs ℝ)) (s : IdxState) (res : PassOut ℝ)
     (hex : ∀ ob ∈ obs, ExactObs σ ob) (hp : passFrom σ fuel obs s = .ok res)
     (P : Matrix (Fin obs.length) (Fin obs.length) ℝ) (S : Finset (Fin res.idx.maxn))
     (hpd : ∀ d, d ≠ 0 → 0 < d ⬝ᵥ P *ᵥ d) (hS : Resolves (passMatrix res obs.length) S)
     (x : Fin res.idx.maxn → ℝ) (v : Fin obs.length → ℝ) (rtr : ℝ)
     (hls : IsLSSolution (passMatrix res obs.length) (fun i : Fin obs.length => res.rhs.getD i.val 0) P S x v rtr)
-    (pols : List ℝ) (hpols : ∀ p ∈ pols, p = 0) (unks : List GN.Unk) (st : St ℝ) :
-    res.rhs = List.replicate obs.length 0 ∧ x = 0 ∧ v = 0 ∧ rtr = 0 ∧ testLin pols = false ∧
-      refine (List.ofFn x) unks st = st :=
-  ⟨pass_rhs_zero σ fuel obs s res hex hp,
-   true_coordinates_fixed_point_codeMatrix σ fuel obs s res hex hp P S hpd hS x v rtr hls pols hpols unks st⟩
+    (unks : List GN.Unk) (st : St ℝ) :
+    res.rhs = List.replicate obs.length 0 ∧ x = 0 ∧ v = 0 ∧ rtr = 0 ∧
+      (∀ fuel', testLinearization σ fuel' res.idx (List.ofFn x) (List.ofFn v) obs ≠ some true) ∧
+      (∃ f0 : Nat, ∀ fuel', f0 ≤ fuel' →
+        testLinearization σ fuel' res.idx (List.ofFn x) (List.ofFn v) obs = some false) ∧
+      refine (List.ofFn x) unks st = st := by
+  obtain ⟨hx, hv, hr, _, hz⟩ :=
+    true_coordinates_fixed_point_codeMatrix σ fuel obs s res hex hp P S hpd hS x v rtr hls [] (by simp) unks st
+  obtain ⟨h1, h2⟩ := testLinearization_true_coordinates σ res.idx (List.ofFn x) (List.ofFn v) obs hex
+    (xAt_ofFn_zero x hx) (xAt_ofFn_zero v hv)
+  exact ⟨pass_rhs_zero σ fuel obs s res hex hp, hx, hv, hr, h1, h2, hz⟩
 
 /-- **regular case** (full column rank: fixed or sufficiently constrained network): no regularisation subset
     is needed — any `S`, in particular the empty one -/
-theorem C06_true_coordinates_fixed_point_assembled_regular_partial
+theorem C06_true_coordinates_fixed_point_assembled_regular
     (σ : Net ℝ) (fuel : Nat) (obs : List (NObs ℝ)) (s : IdxState) (res : PassOut ℝ)
     (hex : ∀ ob ∈ obs, ExactObs σ ob) (hp : passFrom σ fuel obs s = .ok res)
     (P : Matrix (Fin obs.length) (Fin obs.length) ℝ) (S : Finset (Fin res.idx.maxn))
     (hpd : ∀ d, d ≠ 0 → 0 < d ⬝ᵥ P *ᵥ d) (hker : ∀ g, passMatrix res obs.length *ᵥ g = 0 → g = 0)
     (x : Fin res.idx.maxn → ℝ) (v : Fin obs.length → ℝ) (rtr : ℝ)
     (hls : IsLSSolution (passMatrix res obs.length) (fun i : Fin obs.length => res.rhs.getD i.val 0) P S x v rtr)
-    (pols : List ℝ) (hpols : ∀ p ∈ pols, p = 0) (unks : List GN.Unk) (st : St ℝ) :
-    res.rhs = List.replicate obs.length 0 ∧ x = 0 ∧ v = 0 ∧ rtr = 0 ∧ testLin pols = false ∧
+    (unks : List GN.Unk) (st : St ℝ) :
+    res.rhs = List.replicate obs.length 0 ∧ x = 0 ∧ v = 0 ∧ rtr = 0 ∧
+      (∀ fuel', testLinearization σ fuel' res.idx (List.ofFn x) (List.ofFn v) obs ≠ some true) ∧
+      (∃ f0 : Nat, ∀ fuel', f0 ≤ fuel' →
+        testLinearization σ fuel' res.idx (List.ofFn x) (List.ofFn v) obs = some false) ∧
       refine (List.ofFn x) unks st = st :=
-  C06_true_coordinates_fixed_point_assembled_partial σ fuel obs s res hex hp P S hpd
-    (resolves_of_ker_trivial hker S) x v rtr hls pols hpols unks st
+  C06_true_coordinates_fixed_point_assembled σ fuel obs s res hex hp P S hpd
+    (resolves_of_ker_trivial hker S) x v rtr hls unks st
+
+/-- **the stopping test alone, for every class of the visitor**: exact observations (a direction may be read any
+    number `k : ℤ` of full circles off its bearing) and a zero solution ⇒ every positional misclosure
+    `TestLinearization` computes is 0 — whatever index state, whatever fuel sufficed -/
+theorem C06_stopping_test_misclosures_zero
+    (σ : Net ℝ) (fuel : Nat) (idx : IdxState) (x v : List ℝ) (obs : List (NObs ℝ)) (pols : List ℝ)
+    (hex : ∀ ob ∈ obs, ExactObs σ ob) (hx : ∀ i, GN.xAt x i = 0) (hv : ∀ i, GN.xAt v i = 0)
+    (h : polsFrom σ fuel idx x v 1 obs = some pols) : pols = List.replicate obs.length 0 := by
+  have h0 := polsFrom_zero σ fuel idx x v hx hv obs 1 pols hex h
+  have hl : pols.length = obs.length := polsFrom_length σ fuel idx x v obs 1 pols h
+  exact List.eq_replicate_iff.2 ⟨hl, h0⟩
 
 /-- the assembled matrix of the theorem is C05's `codeMatrix` of the rows of the pass -/
 theorem C06_assembled_matrix_is_codeMatrix (res : PassOut ℝ) (m : ℕ) (i : Fin m) (j : Fin res.idx.maxn) :
@@ -65,7 +86,7 @@ theorem C06_assembled_matrix_is_codeMatrix (res : PassOut ℝ) (m : ℕ) (i : Fi
 
 /-- the REGULAR instance: exact observation, successful pass, the assembled matrix `[[1]]` has trivial kernel,
     unit weights, empty regularisation subset, and a least-squares solution — every hypothesis of
-    `C06_true_coordinates_fixed_point_assembled_regular_partial` holds together -/
+    `C06_true_coordinates_fixed_point_assembled_regular` holds together -/
 example : ∃ res, (∀ ob ∈ regObs, ExactObs exNet ob) ∧ passFrom exNet 0 regObs IdxState.init = .ok res ∧
     (∀ g, passMatrix res regObs.length *ᵥ g = 0 → g = 0) ∧
     ∃ (P : Matrix (Fin regObs.length) (Fin regObs.length) ℝ) (x : Fin res.idx.maxn → ℝ)
@@ -96,5 +117,12 @@ example : ∃ res, (∀ ob ∈ exactObs, ExactObs exNet ob) ∧ passFrom exNet 0
     Resolves (passMatrix res exactObs.length) Finset.univ := by
   obtain ⟨res, h⟩ := exactObs_pass_ok
   exact ⟨res, exactObs_exact, h, resolves_univ⟩
+
+/-- the stopping test with a direction read one full circle LOW (k = −1, outside the {0, 2π} of the old per-class
+    lemmas) next to the 5 m distance, on C05's example network: exact, hence "stop" from some fuel on -/
+example : (∀ ob ∈ lowObs, ExactObs exNet ob) ∧
+    ∃ f0 : Nat, ∀ fuel, f0 ≤ fuel → testLinearization exNet fuel IdxState.init [] [] lowObs = some false :=
+  ⟨lowObs_exact, (testLinearization_true_coordinates exNet IdxState.init [] [] lowObs lowObs_exact
+    (fun _ => rfl) (fun _ => rfl)).2⟩
 
 end Gama.Props.C06Assembled
